@@ -15,7 +15,7 @@ import ast
 from ..model import AnalysisError
 from ..terms import T, walk_terms
 from ..absint import AV, TOP, cav
-from ..walk import (data_derives, ret_alts, call_parts, call_arg, is_call_to, const_val, NOVAL, strip_views, unwrap_gamma, axis_uses, same_value, struct_eq, cond_polarity, loop_role, index_chain, is_full_slice)
+from ..walk import (data_derives, ret_alts, call_parts, call_arg, is_call_to, const_val, NOVAL, strip_views, unwrap_gamma, axis_uses, same_value, struct_eq, cond_polarity, loop_role, index_chain, is_full_slice, last_axis_product_sum, index_extent, indexed_values)
 from ..lin import linearise, product_factors, peel
 
 S = 'pb_bss.evaluation.sxr_module::'
@@ -99,59 +99,78 @@ def _power_of(t, pname):
         and const_val(call_arg(t, None, 'axis')) == -1
 
 
+def _extent_is_dim(lp, pname, index):
+    """the running index `lp` ranges over axis `index` (of 3) of <pname>.shape"""
+    ext = index_extent(lp)
+    return isinstance(ext, T) and _dim_of(ext, pname, index)
+
+
 def check_self_exclusion(run, A):
-    # input_sxr: I[k, d] = sum(S[[n for n in range(K) if n != k], d], axis=0)
+    # input_sxr: I[k, d] = sum(S[[n for n in range(K) if n != k], d], axis=0)     for every source k and sensor d
     q = S + 'input_sxr'
     fn = A.prog.func(q)
     g = A.graphs.get(fn)
     ok = False
-    for e in g.events:
-        if e.kind != 'store' or e.term.args[1].op != 'tuple' or len(e.term.args[1].args[0]) != 2:
+    cands = 0
+    for idx, val, node in indexed_values(g):
+        val = strip_views(val)
+        if len(idx) != 2 or not is_call_to(val, 'numpy.sum'):
             continue
-        k, d = (_loop_elem(x) for x in e.term.args[1].args[0])
-        val = strip_views(e.term.args[2])
-        if k is None or d is None or not is_call_to(val, 'numpy.sum'):
+        kL, dL = idx
+        base, items = index_chain(call_arg(val, 0))
+        if not _power_of(base, 'images') or len(items) != 2:
             continue
-        src = strip_views(call_arg(val, 0))
-        if src.op != 'sub' or not _power_of(src.args[0], 'images') or src.args[1].op != 'tuple' or len(src.args[1].args[0]) != 2:
-            continue
-        rows, col = src.args[1].args[0]
-        rows = strip_views(rows)
-        if rows.op != 'comp' or strip_views(col) is not d:
+        cands += 1
+        rows, col = items
+        if not isinstance(rows, T) or rows.op != 'comp' or col != ('index', dL):
             continue
         kind, elts, iters, conds = rows.args
         full = len(iters) == 1 and _range_over(iters[0], lambda x: _dim_of(x, 'images', 0))
-        elt_is_n = len(elts) == 1 and strip_views(elts[0]).op == 'elem' and strip_views(elts[0]).args[0] is iters[0]
+        elt = strip_views(elts[0]) if len(elts) == 1 else None
+        elt_is_n = elt is not None and elt.op == 'elem' and elt.args[0] is iters[0]
         cnd, cpol = cond_polarity(conds[0]) if len(conds) == 1 else (None, None)
-        cond_ok = cnd is not None and cnd.op == 'cmp' and (cnd.args[0], cpol) in (('NotEq', True), ('Eq', False)) and \
-            {id(strip_views(cnd.args[1])), id(strip_views(cnd.args[2]))} == {id(strip_views(elts[0])), id(k)}
-        k_full = _range_over(k.args[0], lambda x: _dim_of(x, 'images', 0))
-        ok = full and elt_is_n and cond_ok and k_full and const_val(call_arg(val, None, 'axis')) in (0, NOVAL)
+        cond_ok = False
+        if cnd is not None and cnd.op == 'cmp' and (cnd.args[0], cpol) in (('NotEq', True), ('Eq', False)) and elt_is_n:
+            sides = [strip_views(cnd.args[1]), strip_views(cnd.args[2])]
+            other = [x for x in sides if x is not elt]
+            r_ = loop_role(other[0]) if len(other) == 1 else None
+            cond_ok = r_ is not None and r_[0] == 'index' and r_[1] is kL
+        k_full = _extent_is_dim(kL, 'images', 0)
+        ok = ok or (full and elt_is_n and cond_ok and k_full and const_val(call_arg(val, None, 'axis')) in (0, NOVAL))
+    if cands == 0:
+        raise AnalysisError('input_sxr: the interference power (a sum over rows of the source power, per source and sensor) is no longer recognised')
     run.check(ok, 'SELF', 'input_sxr: interference of source k sums all sources n != k', fn.loc(), '', 'the interference power of source k does not exclude exactly the own source',
               construct=f'SELF::{q}::exclusion')
+    # output_sxr: II[k] = sum(delete(S[:, selection[k]], k, axis=0))
     q = S + 'output_sxr'
     fn = A.prog.func(q)
     g = A.graphs.get(fn)
     ok = False
-    for e in g.events:
-        if e.kind != 'store':
+    cands = 0
+    for idx, val, node in indexed_values(g):
+        val = strip_views(val)
+        if len(idx) != 1 or not is_call_to(val, 'numpy.sum'):
             continue
-        kr = loop_role(e.term.args[1])
-        val = strip_views(e.term.args[2])
-        if kr is None or kr[0] != 'index' or not is_call_to(val, 'numpy.sum'):
-            continue
-        L = kr[1]
+        L = idx[0]
         dl = strip_views(call_arg(val, 0))
         if not is_call_to(dl, 'numpy.delete'):
             continue
+        cands += 1
         base, items = index_chain(call_arg(dl, 0))
         ir = loop_role(call_arg(dl, 1))
         okc = _power_of(base, 'image_contribution') and len(items) == 2 and is_full_slice(items[0]) and isinstance(items[1], T)
         if okc:
-            # the column is selection[k] of the same loop
+            # the column is selection[k] of the same running index
             sb, sit = index_chain(items[1])
             okc = bool(sit) and sit[-1] == ('index', L) and len(sit) <= 2
-        ok = okc and ir is not None and ir[0] == 'index' and ir[1] is L and const_val(call_arg(dl, None, 'axis')) in (0, NOVAL)
+        ok = ok or (okc and ir is not None and ir[0] == 'index' and ir[1] is L and const_val(call_arg(dl, None, 'axis')) in (0, NOVAL))
+    if cands == 0:
+        # defined elementwise, but not at the running index (e.g. stored at the selected output instead of the source)?
+        for e in g.events:
+            if e.kind == 'store' and is_call_to(strip_views(e.term.args[2]), 'numpy.sum') and is_call_to(strip_views(call_arg(strip_views(e.term.args[2]), 0)), 'numpy.delete'):
+                cands += 1
+    if cands == 0:
+        raise AnalysisError('output_sxr: the interference power (sum of a column of the source power with one row deleted) is no longer recognised')
     run.check(ok, 'SELF', 'output_sxr: interference at the selected output excludes the own source', fn.loc(), '',
               'II[k] is not the sum of S[:, selection[k]] with row k deleted', construct=f'SELF::{q}::exclusion')
 
@@ -173,14 +192,12 @@ def check_selection(run, A):
     # mutual power[p] = sum_k S[k, selections[p, k]]  and  selection = selections[argmax]
     sel_arr = None
     mp_ok = False
-    for e in g.events:
-        if e.kind != 'store':
+    mp_def = None
+    for idx, val, node in indexed_values(g):
+        val = strip_views(val)
+        if len(idx) != 1 or not is_call_to(val, 'numpy.sum', 'builtin.sum'):
             continue
-        pr = loop_role(e.term.args[1])
-        val = strip_views(e.term.args[2])
-        if pr is None or pr[0] != 'index' or not is_call_to(val, 'numpy.sum', 'builtin.sum'):
-            continue
-        Lp = pr[1]
+        Lp = idx[0]
         cp = strip_views(call_arg(val, 0))
         if cp.op != 'comp':
             continue
@@ -188,31 +205,33 @@ def check_selection(run, A):
         if len(elts) != 1 or len(iters) != 1 or conds:
             continue
         base, items = index_chain(elts[0])
-        if not _power_of(base, 'image_contribution') or len(items) != 2 or not isinstance(items[0], T) or not isinstance(items[1], T):
+        if not _power_of(base, 'image_contribution') or len(items) != 2:
             continue
         k, pick = items
-        okk = k.op == 'elem' and k.args[0] is iters[0] and _range_over(iters[0], lambda x: _dim_of(x, 'image_contribution', 0))
+        okk = isinstance(k, tuple) and k[0] == 'index' and getattr(k[1], 'iter', None) is iters[0] and _range_over(iters[0], lambda x: _dim_of(x, 'image_contribution', 0))
+        if not isinstance(pick, T):
+            continue
         pb, pit = index_chain(pick)
-        okp = len(pit) == 2 and pit[0] == ('index', Lp) and pit[1] is k
+        okp = len(pit) == 2 and pit[0] == ('index', Lp) and pit[1] == k
         if okk and okp:
             sel_arr = pb
             src_ok = perms and any(x is perms[0] for x in walk_terms(sel_arr))
             mp_ok = bool(src_ok)
+            mp_def = node
     used_ok = False
+    all_terms = [x for e in g.events if e.term is not None for x in walk_terms(e.term)] + list(walk_terms(g.ret))
     if sel_arr is not None and am:
-        # the noise and the signal of the chosen outputs are read through selections[argmax(mutual_power)]
-        for e in g.events:
-            if e.kind == 'store':
-                for x in walk_terms(e.term.args[2]):
-                    if x.op == 'sub' and strip_views(x.args[0]) is sel_arr and strip_views(x.args[1]) is am[0]:
-                        used_ok = True
-        arg_ok = any(x.op == 'mu' for x in walk_terms(call_arg(am[0], 0)))
+        # the signal of the chosen outputs is read through selections[argmax(mutual_power)]
+        used_ok = any(x.op == 'sub' and strip_views(x.args[0]) is sel_arr and strip_views(x.args[1]) is am[0] for x in all_terms)
+        # ... and the arg-max is taken over the mutual power defined above (a loop-filled array or the comprehension itself)
+        src = strip_views(call_arg(am[0], 0))
+        arg_ok = any(x.op == 'mu' for x in walk_terms(src)) or any(x.op == 'comp' and x.node is mp_def for x in walk_terms(src))
         used_ok = used_ok and arg_ok
     run.check(mp_ok and used_ok, 'R-SEL', 'output_sxr: criterion = sum_k S[k, selection[k]], winner is what is used', fn.loc(), '',
               f'mutual power is the captured diagonal power of an enumerated selection: {mp_ok}; the arg-max selection is the one evaluated: {used_ok}', construct=f'R-SEL::{q}::criterion')
     # noise power at the selected outputs
     nn = False
-    for t in [x for e in g.events if e.term is not None for x in walk_terms(e.term)] + list(walk_terms(g.ret)):
+    for t in all_terms:
         if t.op == 'sub' and _power_of(t.args[0], 'noise_contribution') and sel_arr is not None:
             ix = strip_views(t.args[1])
             nn = nn or (ix.op == 'sub' and strip_views(ix.args[0]) is sel_arr and am and strip_views(ix.args[1]) is am[0])
@@ -269,6 +288,7 @@ def check_si_sdr(run, A):
         v = const_val(ax) if ax is not None else None
         run.check(v == -1, 'R-ELL', f'si_sdr: {cname.split(".")[-1]} over the last axis only', fn.loc(t.node), '', f'reduction over axis {v!r}: leading indices are no longer independent',
                   construct=f'R-ELL::{q}::axis')
+    n += sum(1 for e in g.events if e.kind == 'call' and is_call_to(e.term, 'numpy.einsum') and last_axis_product_sum(e.term) is not None)
     if n < 4:
         raise AnalysisError('si_sdr: reductions not found')
     r = [peel(x) for x in ret_alts(g)]
@@ -282,17 +302,19 @@ def check_si_sdr(run, A):
                 num, den = peel(ratio.args[1]), peel(ratio.args[2])
                 # num = sum(projection**2), den = sum(noise**2), noise = estimation - projection, projection = alpha * reference
                 def sq_of(t_):
-                    if is_call_to(t_, 'numpy.sum'):
-                        a = peel(call_arg(t_, 0))
-                        if a.op == 'binop' and a.args[0] == 'Pow' and const_val(a.args[2]) == 2:
-                            return peel(a.args[1])
-                    return None
+                    r_ = last_axis_product_sum(t_)
+                    return peel(r_[0]) if r_ is not None and r_[0] is r_[1] else None
                 proj, noise = sq_of(num), sq_of(den)
                 if proj is not None and noise is not None and noise.op == 'binop' and noise.args[0] == 'Sub':
                     ok = peel(noise.args[2]) is proj and proj.op == 'binop' and proj.args[0] == 'Mult'
                     if ok:
                         alpha = [x for x in (peel(proj.args[1]), peel(proj.args[2])) if x.op == 'binop' and x.args[0] == 'Div']
-                        ok = len(alpha) == 1 and is_call_to(peel(alpha[0].args[1]), 'numpy.sum') and is_call_to(peel(alpha[0].args[2]), 'numpy.sum')
+                        ok = len(alpha) == 1 and last_axis_product_sum(alpha[0].args[1]) is not None and last_axis_product_sum(alpha[0].args[2]) is not None
+                        if ok:
+                            # alpha = <s, s_hat> / <s, s>: the denominator is the energy of the signal that is scaled
+                            other = [x for x in (peel(proj.args[1]), peel(proj.args[2])) if x is not alpha[0]]
+                            e_ = last_axis_product_sum(alpha[0].args[2])
+                            ok = e_[0] is e_[1] and len(other) == 1 and strip_views(other[0]) is e_[0]
     run.check(ok, 'FORM', 'si_sdr: 10 log10(|alpha s|^2 / |s_hat - alpha s|^2) with alpha = <s, s_hat> / |s|^2', fn.loc(), '', 'projection form not recognised', construct=f'FORM::{q}::projection')
 
 
